@@ -471,23 +471,15 @@ func filterTagNameEnd(b []byte) int {
 }
 
 func appendAltText(dst []byte, source []byte, parent *Inline) []byte {
+	dst = append(dst, ` alt="`...)
 	stack := []*Inline{parent}
-	hasAttr := false
 	for len(stack) > 0 {
 		curr := stack[len(stack)-1]
 		stack = stack[:len(stack)-1]
 		switch curr.Kind() {
-		case TextKind:
-			if !hasAttr {
-				dst = append(dst, ` alt="`...)
-				hasAttr = true
-			}
-			dst = append(dst, curr.Text(source)...)
+		case TextKind, CharacterReferenceKind:
+			dst = append(dst, html.EscapeString(curr.Text(source))...)
 		case IndentKind, SoftLineBreakKind, HardLineBreakKind:
-			if !hasAttr {
-				dst = append(dst, ` alt="`...)
-				hasAttr = true
-			}
 			dst = append(dst, ' ')
 		case LinkDestinationKind, LinkTitleKind, LinkLabelKind:
 			// Ignore.
@@ -496,9 +488,6 @@ func appendAltText(dst []byte, source []byte, parent *Inline) []byte {
 				stack = append(stack, curr.children[i])
 			}
 		}
-	}
-	if !hasAttr {
-		dst = append(dst, `alt="`...)
 	}
 	dst = append(dst, `"`...)
 	return dst
